@@ -57,16 +57,32 @@ def d_openvpn_tcp(b):
     return None if v is None else 2 + v
 
 
-def d_der(b):
-    if len(b) < 2:
+def _ber_end(b, pos):
+    """End offset of the BER element starting at pos (X.690 8.1: definite short / long form, or the indefinite form
+    closed by its end-of-contents octets), None when the buffer ends first."""
+    if len(b) < pos + 2:
         return None
-    l0 = b[1]
+    l0 = b[pos + 1]
     if l0 < 0x80:
-        return 2 + l0
+        return pos + 2 + l0
     k = l0 & 0x7f
-    if k == 0 or len(b) < 2 + k:
-        return None
-    return 2 + k + int.from_bytes(b[2:2 + k], 'big')
+    if k:
+        if len(b) < pos + 2 + k:
+            return None
+        return pos + 2 + k + int.from_bytes(b[pos + 2:pos + 2 + k], 'big')
+    p = pos + 2
+    while True:
+        if len(b) < p + 2:
+            return None
+        if b[p] == 0 and b[p + 1] == 0:
+            return p + 2
+        p = _ber_end(b, p)
+        if p is None:
+            return None
+
+
+def d_der(b):
+    return _ber_end(b, 0)
 
 
 def framing_table():
